@@ -33,6 +33,13 @@ let () =
          | TBadUtf8 -> print_endline "BAD"
          | TFuel -> print_endline "FUEL"
          | TChildShort -> print_endline "SHORT")
+      | ["TW"; wstr; k; d; kind; inp] ->
+        (match foldfilter_cli (unh wstr) (k = "1") (delims d) (child kind) (unh inp) with
+         | CUsage -> print_endline "USAGE"
+         | CRun (TOk o) -> print_endline ("OK " ^ hx o)
+         | CRun TBadUtf8 -> print_endline "BAD"
+         | CRun TFuel -> print_endline "FUEL"
+         | CRun TChildShort -> print_endline "SHORT")
       | "C" :: w :: k :: d :: l :: _n :: rest ->
         let (ps, ds) = pairs rest in
         print_endline (if check_wrap (unh l) (opts w k d) ps ds then "1" else "0")
